@@ -51,6 +51,9 @@ def analyse(src: Source) -> List[Report]:
     rep.extra["transitions"] = transitions
     rep.exhaustive = True
     check_activator(prog, rep)
+    # cell-based taggers generate their in-states from the occupancy: a unit filed in the wrong list is a missing factor
+    from ..cell_rules import check_occupancy
+    check_occupancy(prog, rep)
     rep.expect_min("R9.1-I1-self-trash", 120)
     rep.expect_min("R9.1-I4-nothing-missing", 500)
     rep.expect_min("R9.2-pool", 35)
